@@ -164,11 +164,11 @@ def _judge(ck, work, sources, label):
     mlines = [json.dumps(m, separators=(",", ":")) + "\n" for _, m in muts]
     alll = mlines + lines
     nchunks = max(1, min(4, len(alll) // 4000))
-    size = (len(alll) + nchunks - 1) // nchunks
+    # round robin: event j (0-based) of chunk i is line j * nchunks + i (large random models are spread out)
 
     def one(i):
         p = os.path.join(work, "%s-%d.ndjson" % (label, i))
-        chunk = alll[i * size:(i + 1) * size]
+        chunk = alll[i::nchunks]
         open(p, "w").writelines(chunk)
         v, r = vlib.validate(SPEC, "GeneTrace", "GeneTrace.cfg", p, timeout=3000)
         if v["events"] != len(chunk):
@@ -180,7 +180,7 @@ def _judge(ck, work, sources, label):
     v = {"fails": [], "failkinds": {}, "driftkinds": {}}
     for i, (vi, r) in enumerate(results):
         ck.mc("trace:%s[%d]" % (label, i), r, "%d events" % vi["events"])
-        v["fails"] += [[k + i * size, why] for k, why in vi["fails"]]
+        v["fails"] += [[(k - 1) * nchunks + i + 1, why] for k, why in vi["fails"]]
         for key in ("failkinds", "driftkinds"):
             d = vi.get(key)
             for m, c in (d.items() if isinstance(d, dict) else []):
@@ -274,7 +274,7 @@ def run(ck, tier):
         cases = os.path.join(work, "cases.ndjson")
         open(cases, "w").writelines(clines)
         t1 = os.path.join(work, "t-cases.ndjson")
-        p = vlib.harness(["gene", "cases", "-in", cases, "-out", t1], cmd="vgene")
+        p = vlib.harness(["gene", "cases", "-in", cases, "-out", t1] + (["-big"] if thorough else []), cmd="vgene")
         vlib.log("  [driver] TLC cases: %s" % p.stdout.strip())
         # (C) enumerated and random
         t2 = os.path.join(work, "t-exh.ndjson")
